@@ -1,9 +1,11 @@
-(* Properties_C10.v — game-end predicates follow their definitions at every node, for EVERY position and
-   history (no hypothesis).  "Legal move" below is membership in the generated list; that the generated list
-   is the rules' legal-move set is C01, that threefold() counts occurrences is C09.  The model's queries are
-   pure functions of the position, so none of them changes it.  Statements only. *)
+(* Properties_C10.v — game-end predicates follow their definitions at every node.
+   For EVERY position and history (no hypothesis): the predicates in terms of the generated list and in_check.
+   On the property's domain (wf, rooks_ok, legal-consistent): in terms of the RULES (by C01): checkmate <-> no legal
+   move of the rules and the king attacked; stalemate <-> none and not attacked; is_draw / is_terminal in terms of
+   threefold() (C09), the clock and the rules.  The model's queries are pure functions of the position, so none of
+   them changes it.  Statements only. *)
 From Coq Require Import NArith List Bool.
-From LC Require Import Bits Types BitboardModel MoveModel PositionModel MovegenModel GameModel GameFacts.
+From LC Require Import Bits Types BitboardModel MoveModel PositionModel MovegenModel GameModel GameFacts Spec.Rules Spec.Game Refine.Abs Refine.MakeAbs PerftExact LegalFinal.
 Import ListNotations.
 Local Open Scope N_scope.
 
@@ -20,5 +22,22 @@ Proof. exact is_terminal_iff. Qed.
 Theorem C10_exclusive : forall p, is_checkmate p && is_stalemate p = false.
 Proof. exact mate_stalemate_exclusive. Qed.
 
+Theorem C10_checkmate_rules : forall dfrc p, wf p = true -> rooks_ok p -> legal_consistent dfrc (abs p) = true ->
+  (is_checkmate p = true <-> spec_moves (abs p) = [] /\ spec_in_check (abs p) = true).
+Proof. exact checkmate_rules. Qed.
+Theorem C10_stalemate_rules : forall dfrc p, wf p = true -> rooks_ok p -> legal_consistent dfrc (abs p) = true ->
+  (is_stalemate p = true <-> spec_moves (abs p) = [] /\ spec_in_check (abs p) = false).
+Proof. exact stalemate_rules. Qed.
+Theorem C10_in_check_rules : forall dfrc p, wf p = true -> legal_consistent dfrc (abs p) = true -> in_check p = spec_in_check (abs p).
+Proof. exact in_check_spec. Qed.
+Theorem C10_draw_rules : forall dfrc p, wf p = true -> rooks_ok p -> legal_consistent dfrc (abs p) = true ->
+  is_draw p = (threefold p || spec_fifty (abs p)) && negb (spec_checkmate (abs p)).
+Proof. exact draw_spec. Qed.
+Theorem C10_terminal_rules : forall dfrc p, wf p = true -> rooks_ok p -> legal_consistent dfrc (abs p) = true ->
+  is_terminal p = spec_no_moves (abs p) || ((threefold p || spec_fifty (abs p)) && negb (spec_checkmate (abs p))).
+Proof. exact terminal_spec. Qed.
+
+Print Assumptions C10_checkmate_rules. Print Assumptions C10_stalemate_rules. Print Assumptions C10_in_check_rules.
+Print Assumptions C10_draw_rules. Print Assumptions C10_terminal_rules.
 Print Assumptions C10_checkmate. Print Assumptions C10_stalemate. Print Assumptions C10_fiftymoves.
 Print Assumptions C10_draw. Print Assumptions C10_terminal. Print Assumptions C10_exclusive.
